@@ -114,28 +114,36 @@ def numeric(ctx, rep):
                 "hex=%s: digits are read from %s with radix %s" % (is_hex, sorted(res.env.get("allowed") or []), res.env.get("radix")),
                 detail={"hex": is_hex, "radix": eradix})
     src = " ".join(norm(f.node).split())
-    r.check("R14.3", "while c in allowed and c is not EOF:" in src and "charAsInt = int(''.join(charStack), radix)" in src,
+    r.idiom("R14.3", "while c in allowed and c is not EOF:" in src and "charAsInt = int(''.join(charStack), radix)" in src,
             "digit-loop", f.where, "the digit loop / conversion no longer use `allowed` and `radix`")
     r.check("R14.3", hexd == frozenset("0123456789abcdefABCDEF") and digits == frozenset("0123456789"), "digit-sets",
             "constants.py", "digits / hexDigits are not the ASCII (hex) digits")
     # semicolon handling: consumed if present, otherwise given back
-    r.check("R14.3", "if c != ';':" in src and "self.stream.unget(c)" in src, "semicolon", f.where,
-            "the character after the digits is not given back when it is not ';'")
+    r.idiom("R14.3", "if c != ';':" in src and "self.stream.unget(c)" in src, "semicolon", f.where,
+            "the character after the digits is not given back when it is not ';'", wrong=[("unget" not in src, None)])
     # caller: hex iff x/X, first digit class
     g = ctx.repo.func(REL, "HTMLTokenizer.consumeEntity")
     tests = [n for n in ast.walk(g.node) if isinstance(n, ast.If) and "hexDigits" in norm(n.test) and "digits" in norm(n.test)]
     if len(tests) != 1:
         raise AnalysisError("consumeEntity: first-digit test not found")
     gi = MiniInterp(ce, g.module)
+    hexvar = "hex"
+    for n in ast.walk(g.node):
+        if isinstance(n, ast.If) and "'x'" in norm(n.test) and "'X'" in norm(n.test):
+            for st in n.body:
+                if isinstance(st, ast.Assign) and isinstance(st.targets[0], ast.Name) and norm(st.value) == "True":
+                    hexvar = st.targets[0].id
     for hexv in (True, False):
         for a in ATOMS:
-            env = {"hex": hexv, "charStack": [a], "self": Opaque("self")}
+            env = {hexvar: hexv, "charStack": [a], "self": Opaque("self")}
             got = gi.eval_guard(tests[0].test, env)
             exp = isinstance(a, str) and ((a in hexd) if hexv else (a in digits))
             r.check("R14.3", got == exp, "first-digit[hex=%s,%s]" % (hexv, atom_name(a)), "%s:%d" % (REL, tests[0].lineno),
                     "numeric reference (hex=%s) %s %s as first digit" % (hexv, "accepts" if got else "rejects", atom_name(a)))
-    xs = [n for n in ast.walk(g.node) if isinstance(n, ast.If) and norm(n.test) in ("charStack[-1] in ('x', 'X')", "charStack[-1] in ('X', 'x')")]
-    r.check("R14.3", len(xs) == 1 and any(norm(s) == "hex = True" for s in xs[0].body), "hex-marker", g.where,
+    xs = [n for n in ast.walk(g.node) if isinstance(n, ast.If) and norm(n.test) in (
+        "charStack[-1] in ('x', 'X')", "charStack[-1] in ('X', 'x')", "charStack[-1] == 'x' or charStack[-1] == 'X'",
+        "charStack[-1] == 'X' or charStack[-1] == 'x'")]
+    r.idiom("R14.3", len(xs) == 1 and any(isinstance(s, ast.Assign) and norm(s.value) == "True" for s in xs[0].body), "hex-marker", g.where,
             "hexadecimal references are not introduced by exactly x / X")
 
 
@@ -163,7 +171,7 @@ def named(ctx):
     # in the exception arm the text is left undecoded; in the other arm the table value is used
     body_src = " ".join(norm(ast.Module(body=t.body, type_ignores=[])).split())
     else_src = " ".join(norm(ast.Module(body=t.orelse, type_ignores=[])).split())
-    r.check("R14.4", "output = '&' + ''.join(charStack)" in body_src and "output = entities[entityName]" in else_src,
+    r.idiom("R14.4", "output = '&' + ''.join(charStack)" in body_src and "output = entities[entityName]" in else_src,
             "attr-exception-arms", "%s:%d" % (REL, t.lineno), "the arms of the attribute exception no longer keep / decode the reference")
     # R14.7
     pre = [n for n in g.node.body if isinstance(n, ast.If) and "allowedChar" in norm(n.test)]
@@ -218,9 +226,12 @@ def reverse_map(ctx, ents):
             "'&' itself is in the reverse map")
     f = ctx.repo.func("serializer.py", "htmlentityreplace_errors")
     src = " ".join(norm(f.node).split())
-    r.check("R14.5", "res.append('&')" in src and "res.append(e)" in src and "if not e.endswith(';'): res.append(';')" in src
+    semi_guard = "endswith(';')" in src
+    r.idiom("R14.5", "res.append('&')" in src and "res.append(e)" in src and "if not e.endswith(';'): res.append(';')" in src
             and "res.append('&#x%s;' % hex(cp)[2:])" in src, "emitted-form", f.where,
-            "the replacement is no longer written as &name; / &#x<hex>;")
+            "the replacement is no longer written as &name; / &#x<hex>;",
+            wrong=[(not semi_guard, "a named reference taken from the reverse map is written without making sure it ends in ';': "
+                    "the legacy names (e.g. Eacute) then swallow following letters or are not decoded in attribute values")])
     ctx.r.extra["reverse_map_entries"] = len(emap)
 
 
@@ -255,7 +266,7 @@ def contexts(ctx):
     # consumeEntity: result goes to the attribute value or to a character token
     f = ctx.repo.func(REL, "HTMLTokenizer.consumeEntity")
     src = " ".join(norm(f.node).split())
-    r.check("R14.6", "if fromAttribute: self.currentToken['data'][-1][1] += output" in src, "attr-output", f.where,
+    r.idiom("R14.6", "if fromAttribute: self.currentToken['data'][-1][1] += output" in src, "attr-output", f.where,
             "in attribute context the decoded text is not appended to the attribute value")
     g = ctx.repo.func(REL, "HTMLTokenizer.processEntityInAttribute")
     r.check("R14.6", "self.consumeEntity(allowedChar=allowedChar, fromAttribute=True)" in norm(g.node), "attr-wrapper", g.where,
